@@ -569,6 +569,17 @@ where
             channel_mask,
         })
     }
+
+    fn update_needed_len(&mut self) {
+        // Input time covered by the next chunk. The step between output frames goes
+        // linearly from 1/resample_ratio to 1/target_ratio, reaching it at the last frame.
+        let t_start = 1.0 / self.resample_ratio;
+        let t_end = 1.0 / self.target_ratio;
+        let frames = self.chunk_size as f64;
+        let advance = frames * t_start + (t_end - t_start) * (frames + 1.0) / 2.0;
+        self.needed_input_size =
+            (self.last_index + advance + POLYNOMIAL_LEN_U as f64).ceil() as usize;
+    }
 }
 
 impl<T> Resampler<T> for FastFixedOut<T>
@@ -748,10 +759,7 @@ where
         let input_frames_used = self.needed_input_size;
         self.last_index = idx - self.current_buffer_fill as f64;
         self.resample_ratio = self.target_ratio;
-        self.needed_input_size = (self.last_index as f32
-            + self.chunk_size as f32 / self.resample_ratio as f32
-            + POLYNOMIAL_LEN_U as f32)
-            .ceil() as usize;
+        self.update_needed_len();
         trace!(
             "Resampling channels {:?}, {} frames in, {} frames out. Next needed length: {} frames, last index {}",
             active_channels_mask,
@@ -801,11 +809,7 @@ where
                 self.resample_ratio = new_ratio;
             }
             self.target_ratio = new_ratio;
-            self.needed_input_size = (self.last_index as f32
-                + self.chunk_size as f32
-                    / (0.5 * self.resample_ratio as f32 + 0.5 * self.target_ratio as f32))
-                .ceil() as usize
-                + POLYNOMIAL_LEN_U;
+            self.update_needed_len();
             Ok(())
         } else {
             Err(ResampleError::RatioOutOfBounds {
@@ -836,14 +840,12 @@ where
         self.buffer
             .iter_mut()
             .for_each(|ch| ch.iter_mut().for_each(|s| *s = T::zero()));
-        self.needed_input_size = (self.chunk_size as f64 / self.resample_ratio_original).ceil()
-            as usize
-            + POLYNOMIAL_LEN_U / 2;
-        self.current_buffer_fill = self.needed_input_size;
         self.last_index = -(POLYNOMIAL_LEN_I / 2) as f64;
         self.channel_mask.iter_mut().for_each(|val| *val = true);
         self.resample_ratio = self.resample_ratio_original;
         self.target_ratio = self.resample_ratio_original;
+        self.update_needed_len();
+        self.current_buffer_fill = self.needed_input_size;
     }
 }
 
